@@ -304,3 +304,15 @@ fn connect_graph<T: FloatT>(L: &mut CscMatrix<T>) {
         }
     }
 }
+
+// verification-only hooks (see /verif); compiled only under the guard cfg
+#[cfg(oxfordcontrol_clarabel_rs_verif)]
+pub(crate) mod verif_hooks_ci {
+    use crate::algebra::*;
+    pub(crate) fn find_aggregate_sparsity_mask<T: FloatT>(A: &CscMatrix<T>, b: &[T]) -> Vec<bool> {
+        super::find_aggregate_sparsity_mask(A, b)
+    }
+    pub(crate) fn connect_graph<T: FloatT>(L: &mut CscMatrix<T>) {
+        super::connect_graph(L)
+    }
+}
